@@ -20,10 +20,18 @@ RULE = (
     'formulas from the grammar up to depth 5, alternating between two '
     'managers with opposite orders and interfaces (the translator is '
     'shared), with refused formulas (undeclared name, unknown node, syntax '
-    'error at the end) and collections in between; (e) add_expr(to_expr(u)) == '
+    'error at the end) and collections in between, over identifier sets '
+    'that include near-keywords (ITE, tRUE, FALSe, ite_, true\', ...); (e) add_expr(to_expr(u)) == '
     'u for all functions of <=3 variables under all orders and 4 '
     'variables sampled/all; dd.bdd and dd.autoref. Non-trivial: the '
     'formula contains at least one operator; distinct by formula text.')
+
+NAME_SETS = (
+    ['x', "y'", '_z', 'w1'],
+    ['ITE', 'tRUE', 'FALSe', 'ite_'],
+    ['Ite', "true'", 'falsE', 'TRUE1'],
+    ['iTe', '_true', 'False_', 'x'],
+)
 
 SPELLINGS = [s for op in ('equiv', 'implies', 'diff', 'xor', 'or', 'and')
              for s in formula.BIN[op][1]]
@@ -49,6 +57,11 @@ def plan(tier, seed):
     for k, o in enumerate(orders(n3, 'thorough', seed, 6)):
         specs.append(dict(kind='roundtrip', names=n3, order=o, sample=None,
                           hashseed=k))
+    nk = ('ITE', 'tRUE', 'falsE')   # names that are nearly keywords
+    for k, o in enumerate(orders(nk, 'thorough', seed, 6)):
+        if tier == 'thorough' or k % 3 == 0:
+            specs.append(dict(kind='roundtrip', names=nk, order=o,
+                              sample=None, hashseed=k))
     if tier == 'thorough':
         for k, o in enumerate(orders(n4, tier, seed, 24)):
             specs.append(dict(kind='roundtrip', names=n4, order=o,
@@ -238,7 +251,10 @@ def binders(ctx, spec):
 
 def random_(ctx, spec):
     rng = ctx.rng('random', spec['sub'])
-    names = ['x', "y'", '_z', 'w1'][:spec['n']]
+    # identifiers of every documented shape, among them ones that differ
+    # from the keywords (`ite`, `TRUE/true/True`, `FALSE/false/False`)
+    # only in letter case or by a suffix: all are ordinary names
+    names = NAME_SETS[spec['sub'] % len(NAME_SETS)][:spec['n']]
     order = names[:]
     rng.shuffle(order)
     m1 = Mgr(ctx, names, order, spec['auto'], rng)
